@@ -142,6 +142,9 @@ def fam_tasks(w: World) -> None:
             w.plan[('method', tok)] = [ch.choice(gen.PAUSES, 'pause.d') for _ in range(ch.draw(3, 'pause.n'))]
             for i in range(len(cfg['middlewares'])):
                 w.plan[('mw', i, tok)] = [ch.choice(gen.PAUSES, 'pause.d') for _ in range(ch.draw(2, 'pause.mw'))]
+            for hs in cfg['handlers'].values():
+                for hid, _ in hs:
+                    w.plan[('eh', hid, tok)] = [ch.choice(gen.PAUSES, 'pause.d') for _ in range(ch.draw(2, 'pause.eh'))]
     w.scenario = {'cfg': cfg, 'tasks': n_tasks, 'first': texts[:1]}
     w.nontrivial = True
     expected = []
